@@ -187,7 +187,10 @@ pub fn run_legs(tier: &str, seed: u64, kf: &Kf) -> Partial {
             .iter()
             .map(|j| {
                 let dd = j.3.clone();
-                sc.spawn(move || Command::new("g++").args(["-std=c++17", "-O1", "-w", "-I/repo/pdl-compiler/scripts", "-I"]).arg(&dd).arg(dd.join("e.cc")).arg("-o").arg(dd.join("e")).output().map(|o| o.status.success()).unwrap_or(false))
+                sc.spawn(move || {
+                    let _slot = crate::compile::compile_slot();
+                    Command::new("g++").args(["-std=c++17", "-O1", "-w", "-I/repo/pdl-compiler/scripts", "-I"]).arg(&dd).arg(dd.join("e.cc")).arg("-o").arg(dd.join("e")).output().map(|o| o.status.success()).unwrap_or(false)
+                })
             })
             .collect();
         hs.into_iter().map(|h| h.join().unwrap_or(false)).collect()
